@@ -171,6 +171,8 @@ func Resume(
 	if sectionOffset, err = v1r.Seek(int64(offset), io.SeekStart); err != nil {
 		return err
 	}
+	// staleTail is set when the scan stops at a zero-length section rather than at the end of the file.
+	staleTail := false
 
 	for {
 		// Grab the length of the section.
@@ -186,6 +188,7 @@ func Resume(
 		// Null padding; by default it's an error.
 		if length == 0 {
 			if zeroLengthSectionAsEOF {
+				staleTail = true
 				break
 			} else {
 				return fmt.Errorf("carv1 null padding not allowed by default; see WithZeroLegthSectionAsEOF")
@@ -217,6 +220,21 @@ func Resume(
 		// The section length includes the CID, so subtract it.
 		if sectionOffset, err = v1r.Seek(int64(length)-int64(n), io.SeekCurrent); err != nil {
 			return err
+		}
+	}
+	if staleTail {
+		// Writing resumes here, in front of bytes that are still in the file: null padding, or the
+		// index padding and index of a Finalize whose header never made it to disk. Left in
+		// place, they would complete a later section write that is cut short, and Resume would
+		// then index a block that was never wholly written.
+		if t, ok := rw.(interface{ Truncate(size int64) error }); ok {
+			end := sectionOffset
+			if !v1 {
+				end += int64(dataOffset)
+			}
+			if err := t.Truncate(end); err != nil {
+				return err
+			}
 		}
 	}
 	// Seek to the end of last skipped block where the writer should resume writing.
